@@ -484,6 +484,10 @@ mut("C12", "r7-rank3-subscript-dropped", E + "FEM/_linalg.py", "        _idx = {
 same("C19", "r7-jacobian-loop-zip", E + "Models/InElastic/_behavior.py", "                for j in range(len(self.__kinematic)):\n                    Bj = layout.slots[f\"{Slot.alpha}{j}\"]\n                    J_e_pg[..., Bj, slot] = branch.g * dG_e_pg * dNdSig_C\n", "                for j, _component in enumerate(self.__kinematic):\n                    J_e_pg[..., layout.slots[f\"{Slot.alpha}{j}\"], slot] = dG_e_pg * dNdSig_C * branch.g\n")
 same("C04", "r7-joint-loop-index", E + "Simulations/_beam.py", "                for node in nodes[1:]:\n                    pair = np.asarray([nodes[0], node])\n", "                for k in range(1, len(nodes)):\n                    pair = np.asarray([nodes[0], nodes[k]])\n")
 
+same("C19", "r7-elastic-path-test-form", E + "Models/InElastic/_behavior.py", "        if self.__layout.n == 0:\n            return (\n                self.Compute_sigma(eps6_e_pg, zOld_e_pg),", "        if self.__layout.n < 1:\n            return (\n                self.Compute_sigma(eps6_e_pg, zOld_e_pg),")
+same("C19", "r7-bound-two-statements", E + "Models/InElastic/_behavior.py", "            u = self.__Bound(u - np.linalg.solve(J, r[..., None])[..., 0])\n", "            step = np.linalg.solve(J, r[..., None])[..., 0]\n            u = u - step\n            u = self.__Bound(u)\n")
+mut("C19", "r7-elastic-path-half-tangent", E + "Models/InElastic/_behavior.py", "                self.Compute_sigma(eps6_e_pg, zOld_e_pg),\n                C6_e_pg,\n                zOld_e_pg,", "                self.Compute_sigma(eps6_e_pg, zOld_e_pg),\n                0.5 * C6_e_pg,\n                zOld_e_pg,", "__Integrate_3d")
+
 
 def apply_edit(root, e):
     if e.get("patch"):
